@@ -9,7 +9,10 @@ BASE = json.load(open("/root/.vp/BASELINE.json"))["cmd"].replace("--junitxml=<fi
 NOTE = ("Trusted: Lean 4.33 kernel; axioms propext/Classical.choice/Quot.sound only (audited every run, no "
         "native_decide/bv_decide/sorry); the hand-written model is tied to /repo by the per-run correspondence "
         "check (exhaustive-small + seeded random through the compiled Lean driver) and, for data tables, by the "
-        "translator tools/translate.py; agreement outside explored inputs is assumed. ")
+        "translator tools/translate.py (regenerated from the source on every run; the lock discipline and the comparison/"
+        "hash dunders are strict - unreadable source breaks the obligation -, the other tables fall back to the pinned table "
+        "and are then tied by correspondence, which the evidence lists as translator_fallbacks); agreement outside explored "
+        "inputs is assumed. ")
 
 # id -> (technique, level text, extra note, design ref)
 CHECKS = {
